@@ -52,7 +52,7 @@ func (e *Engine) matchFuncs(pats []string) []*ssa.Function {
 	var out []*ssa.Function
 	for k, fn := range e.funcsByShort {
 		for _, p := range pats {
-			if k == p || (strings.HasSuffix(p, "*") && strings.HasPrefix(k, strings.TrimSuffix(p, "*"))) {
+			if k == p || globMatch(p, k) {
 				out = append(out, fn)
 				break
 			}
@@ -60,6 +60,16 @@ func (e *Engine) matchFuncs(pats []string) []*ssa.Function {
 	}
 	sort.Slice(out, func(i, j int) bool { return e.funcKey(out[i]) < e.funcKey(out[j]) })
 	return out
+}
+
+// globMatch: pattern with one '*' (anywhere) against a short function key.
+func globMatch(p, k string) bool {
+	i := strings.Index(p, "*")
+	if i < 0 {
+		return false
+	}
+	pre, suf := p[:i], p[i+1:]
+	return len(k) >= len(pre)+len(suf) && strings.HasPrefix(k, pre) && strings.HasSuffix(k, suf)
 }
 
 func cmdVerify(args []string) {
